@@ -171,6 +171,10 @@ def expandAbort (t : String) : List String :=
   | ["am", c, m] => ["wh:" ++ c, "wr:" ++ (if m = "-" then "" else m) ++ "0a", "ab"]
   -- `c.JSONP(200, "cb", v)` = SetStatus(200), then the JSONP renderer on c.Resp: `cb(`, the encoding + "\n", `);`
   -- (v = {"n":1}); with a value whose MarshalJSON panics ("mj") the helper dies after the first write
+  -- `c.Render(200, view, nil)`: the view that renders is sent with c.HTML (c.Resp.WriteHeader + one write), the failing view
+  -- returns its error before anything is sent
+  | ["rd", "0"] => ["wh:200", "wr:3c703e6f6b3c2f703e"]
+  | ["rd", "1"] => []
   | ["jp", "0"] => ["ss:200", "wr:636228", "wr:7b226e223a317d0a", "wr:293b"]
   | ["jp", "1"] => ["ss:200", "wr:636228", "pn:s.6d6a"]
   | _ => [t]
